@@ -268,6 +268,9 @@ def check_inplace(facts, chk):
 
 
 def run(facts, chk, tier, only=None):
+    from . import cli_e2e
+    # the subcommand through ska::main() itself (argument parser replaced by a constructed Args value): hand-over of CLI values, width dispatch
+    chk.guard('C19.cli', 'C19.cli:run0', lambda: cli_e2e.check_merge_delete(facts, chk, 'C19.cli', tier, 'merge'))
     chk.guard('C19.stack', 'C19.stack:run', lambda: check_stack(facts, chk))
     chk.guard('C19.errors', 'C19.errors:run', lambda: check_errors(facts, chk))
     chk.guard('C19.inplace', 'C19.inplace:run', lambda: check_inplace(facts, chk))
